@@ -378,7 +378,7 @@ func init() {
 		Rule: "case k: a command tree of depth <=4, fan-out <=4 with aliases (60%), optional-sub-command marks, tag-declared and AddCommand-declared nodes mixed and deliberate short/long name clashes between levels (45% of options, random types so a wrong binding shows as a value or ErrMarshal); an intent vector interleaving command words (by name or alias) with options of all levels. k mod 5 selects the oracle: 0,4 denotation of chain/values; 1 alias<->name swap must not change the outcome; 2 an option occurrence moved to any later place (across command words) where it still denotes the same option must not change the outcome; 3 missing / unrecognised command word (ErrCommandRequired / ErrUnknownCommand, or ordinary argument when sub-commands are optional). " +
 			"Non-trivial = the relation was evaluated; distinct = (oracle, depth, aliases, shadowing count, positions).",
 		Assumptions: []string{"callback order may change when an occurrence is moved: logs compared as multisets there", "an occurrence is never moved across another occurrence of the same option"},
-		Technique:   "runtime reference-model monitor (chain/value denotation) + metamorphic relations (alias swap, ancestor option moved right) executed on the real parser",
+		Technique:   "runtime reference-model monitor (chain/value denotation) + metamorphic relations (alias swap, ancestor option moved right) executed on the real parser; metamorphic history monitor ([use, change of the public model, use] on one parser vs. a fresh parser of the changed declaration)",
 		LevelText:   "Exploration over tree shapes and interleavings with a denotation oracle plus two metamorphic relations; appropriate because scoping is a relation between positions of tokens, which example tests cannot enumerate.",
 		LevelNote:   "Trusted: the scope model (innermost declaration wins, ancestors stay visible) which is a transcription of the statement.",
 		DesignRef:   "§4 C08",
